@@ -322,7 +322,30 @@ def _kind(k1, k2):
     return '%s-%s' % (type(k1).__name__, type(k2).__name__)
 
 
+class ShardedJSONKeys(SubCheck):
+    """Key identity through FanoutCache(JSONDisk): keys with identical JSON address one entry (same oracle as C13's
+    jsondisk_routing; kept here because it is a key-identity clause)."""
+
+    name = 'sharded_json_keys'
+
+    def examples(self, tier):
+        return 40 if tier == 'quick' else 1500
+
+    def strategy(self, tier):
+        from . import c13
+
+        return c13.JSONDiskRouting().strategy(tier)
+
+    def execute(self, case, env):
+        from . import c13
+
+        try:
+            return c13.JSONDiskRouting().execute(case, env)
+        except Violation as v:
+            raise Violation('C02/split/sharded-jsondisk/' + v.signature.rsplit('/', 1)[1], v.detail)
+
+
 from ..fuzz import FuzzCampaign  # noqa: E402
 
-SUBCHECKS = [Pairs()]
+SUBCHECKS = [Pairs(), ShardedJSONKeys()]
 SUBCHECKS.append(FuzzCampaign('c02', SUBCHECKS[0], runs_quick=2000, runs_thorough=60000))
